@@ -53,6 +53,18 @@ def case_model(case):
         r.close("cor(h) == documented closed form", m.cor(hh), refh, **TOL, **extra)
         r.close("correlation(r) == cor(rescale * r / len_scale)", cor, m.cor(s * lags / ls), rtol=1e-12, atol=1e-14, **extra)
     r.close("covariance(r) == var * correlation(r)", m.covariance(lags), var * cor, rtol=1e-12, atol=1e-14 * var, **extra)
+    # lags given as list of int / integer array / python int are the same numbers
+    li = [0, 1, 2, 5]
+    for fname in ("correlation", "covariance", "variogram", "cor"):
+        fn = getattr(m, fname)
+        base = np.asarray(fn(np.array(li, dtype=float)), dtype=float)
+        r.close(f"{fname}(integer array) == {fname}(float array)", np.asarray(fn(np.array(li)), dtype=float), base, rtol=1e-13, atol=1e-300, **extra)
+        if fname != "cor":  # (cor is the kernel of the class, documented for arrays only)
+            try:  # documented argument type is an array; a list is either refused (TypeError) or means the same numbers
+                r.close(f"{fname}(list of int) == {fname}(float array)", np.asarray(fn(li), dtype=float), base, rtol=1e-13, atol=1e-300, **extra)
+            except TypeError:
+                pass
+            r.close(f"{fname}(python int) == {fname}(float array)[i]", [float(np.asarray(fn(x_)).ravel()[0]) for x_ in li], base, rtol=1e-13, atol=1e-300, **extra)
     r.close("variogram(r) == var + nugget - covariance(r)", m.variogram(lags), var + nug - m.covariance(lags), rtol=1e-12, atol=1e-13 * (var + nug), **extra)
     r.close("variogram(r) == documented closed form", m.variogram(lags), var * (1 - ref) + nug, rtol=1e-8, atol=1e-9 * (var + nug), **extra)
     r.close("sill == var + nugget", m.sill, var + nug, rtol=1e-14, **extra)
@@ -184,7 +196,27 @@ def case_yadrenko(case):
     r.close("vario_yadrenko(zeta) == variogram(chordal distance)", m.vario_yadrenko(zeta), m.variogram(chord), rtol=1e-12, atol=1e-14, **extra)
     r.close("cov_yadrenko(zeta) == covariance(chordal distance)", m.cov_yadrenko(zeta), m.covariance(chord), rtol=1e-12, atol=1e-14, **extra)
     r.close("cor_yadrenko(zeta) == correlation(chordal distance)", m.cor_yadrenko(zeta), m.correlation(chord), rtol=1e-12, atol=1e-14, **extra)
+    # the closed form of a lat-lon model is the one of its effective dimension (3)
+    ref = np.array([float(cf.ref_correlation(cls, opts, 3, x, 0.7 * gsc, m.rescale)) for x in chord])
+    r.close("lat-lon model: correlation == documented closed form in the effective dimension", m.correlation(chord), ref, rtol=1e-8, atol=1e-9, **extra)
+    r.close("lat-lon model: cor_yadrenko == documented closed form of the chordal distance", m.cor_yadrenko(zeta), ref, rtol=1e-8, atol=1e-9, **extra)
     return r.done(outcome=[round(float(v), 10) for v in m.cor_yadrenko(zeta)[:3]])
+
+
+def case_effdim(case):
+    """spatio-temporal (metric) and lat-lon models evaluate the closed form of their effective dimension"""
+    r = R()
+    cls, opts, kw = case["cls"], case["opts"], case["kw"]
+    m = getattr(gs, cls)(var=1.4, len_scale=1.3, nugget=0.1, **kw, **opts)
+    d = int(m.dim)
+    extra = {"cls": cls, "dim": d, **kw}
+    lags = np.array([0.0, 1e-6, 0.1, 0.4, 0.9, 1.3, 2.0, 5.0]) / m.rescale * 1.3
+    ref = np.array([float(cf.ref_correlation(cls, opts, d, x, 1.3, m.rescale)) for x in lags])
+    r.close("correlation == documented closed form in the effective dimension (space + time / sphere embedding)", m.correlation(lags), ref, rtol=1e-8, atol=1e-9, **extra)
+    r.close("variogram == var (1 - closed form) + nugget in the effective dimension", m.variogram(lags), 1.4 * (1 - ref) + 0.1, rtol=1e-8, atol=1e-9, **extra)
+    fresh = getattr(gs, cls)(dim=d, var=1.4, len_scale=1.3, nugget=0.1, **opts)
+    r.close("same values as the plain model of that dimension", m.correlation(lags), fresh.correlation(lags), rtol=1e-12, atol=1e-14, **extra)
+    return r.done(outcome=[cls, d, str(kw)])
 
 
 def _user_classes():
@@ -272,7 +304,7 @@ def case_history(case):
     return r.done(outcome=[cls, dim])
 
 
-GROUPS = {"history": case_history, "model": case_model, "integral": case_integral, "variants": case_variants, "yadrenko": case_yadrenko, "user": case_user}
+GROUPS = {"history": case_history, "model": case_model, "integral": case_integral, "variants": case_variants, "yadrenko": case_yadrenko, "effdim": case_effdim, "user": case_user}
 
 
 def run(chk):
@@ -296,6 +328,15 @@ def run(chk):
     chk.run("integral", case_integral, icases, rule="class x dim x optional arguments x (len_scale, rescale): integral scale vs quadrature of the reference correlation; prescribing integral_scale (scalar, list) in constructor and setter", max_skip_frac=0.6)
     chk.run("variants", case_variants, vcases, rule="class x dim x optional arguments x (anisotropy, rotation) incl. unrotated-anisotropic and rotated-isotropic: axis / spatial variants and correlation along rotated main axes")
     ycases = [{"cls": c, "opts": cf.opt_grid(c, 3, "quick")[-1], "geo_scale": g} for c in cf.SHIPPED if 3 in cf.valid_dims(c) for g in (1.0, gs.KM_SCALE, 17.3)]
+    ecases = []
+    for c in cf.SHIPPED:
+        for kw in ({"temporal": True, "spatial_dim": 1}, {"temporal": True, "spatial_dim": 2}, {"temporal": True, "spatial_dim": 3}, {"latlon": True}, {"latlon": True, "temporal": True}):
+            eff = 3 + int(kw.get("temporal", False)) if kw.get("latlon") else kw["spatial_dim"] + 1
+            if eff not in cf.valid_dims(c, 4):
+                continue
+            for opts in cf.opt_grid(c, eff, "quick")[:2]:
+                ecases.append({"cls": c, "opts": opts, "kw": kw})
+    chk.run("effdim", case_effdim, ecases, rule="class x {temporal with spatial_dim 1-3, lat-lon, lat-lon + temporal} x optional arguments: correlation / variogram equal the documented closed form of the effective dimension and the plain model of that dimension", chunk=4)
     chk.run("yadrenko", case_yadrenko, ycases, rule="classes valid in 3-D x geo_scale: Yadrenko variants vs isotropic functions of the chordal distance 2 R sin(zeta / 2R)")
     ucases = [{"dim": d, "var": v, "len_scale": l, "nugget": n, "rescale": rs} for d in (1, 2, 3) for v in (0.5, 2.0) for l in (0.7, 3.0) for n in (0.0, 0.3) for rs in (None, 2.0)]
     chk.run("user", case_user, ucases, rule="user subclasses defined via cor / correlation / covariance / variogram (same kernel) x dim x var x len_scale x nugget x rescale")
